@@ -151,10 +151,12 @@ def run_case(spec):
         if not check_published(res, engine, composite, 'after construction'):
             return res
         nt = len(spec['ticks'])
-        for t in range(nt + 1):
-            engine.run_for(1.0, force_complete=False)
+        done = 0
+        for c in spec.get('chunks') or [1] * (nt + 1):
+            engine.run_for(float(c), force_complete=False)
+            done += c
             if not check_published(res, engine, composite,
-                                   'after batch %d' % t):
+                                   'after %d batches' % done):
                 return res
         check_invocations(spec, res, ctx, lives, engine)
         if res.violations:
@@ -201,6 +203,7 @@ def check_invocations(spec, res, ctx, lives, engine):
         # events of this window happened while `prev_live` (invocations come
         # before the window's applications) or `live` (steps come after them)
         step_runs = {}
+        step_order = []
         for ev in ctx.log[a:b]:
             if ev[0] == 'invoke' and ev[1] == 'grow':
                 ident = ev[4]
@@ -216,11 +219,12 @@ def check_invocations(spec, res, ctx, lives, engine):
                             and life['birth'] <= ev[2]:
                         life['calls'].append((ev[2], ev[3]))
                         break
-            elif ev[0] == 'step' and ev[1] in ('obs', 'der'):
+            elif ev[0] == 'step' and ev[1] in ('obs', 'der', 'obs2'):
                 step_runs[ev[4]] = step_runs.get(ev[4], 0) + 1
+                step_order.append(ev[4])
         step_ids = {}
         for path, ident in live.items():
-            if path[-1] in ('obs', 'der'):
+            if path[-1] in ('obs', 'der', 'obs2'):
                 step_ids[ident] = path
         if a != b or t == 0:
             for ident, path in step_ids.items():
@@ -234,6 +238,17 @@ def check_invocations(spec, res, ctx, lives, engine):
                     res.fail('step.not_live', 'phase at %r: a step that is not '
                              'in the hierarchy ran' % (t,), 'engine.py:run_steps')
                     return
+            # flow of generated/moved/divided steps: obs2 depends on obs
+            byp = {path: ident for ident, path in step_ids.items()}
+            for path, ident in byp.items():
+                if path[-1] == 'obs2':
+                    dep = byp.get(path[:-1] + ('obs',))
+                    if dep in step_order and ident in step_order and \
+                            step_order.index(ident) < step_order.index(dep):
+                        res.fail('step.flow_order', 'phase at %r: %r ran before '
+                                 'its dependency obs' % (t, path),
+                                 'engine.py:apply_update')
+                        return
         prev_live = live
     # process schedules
     final = engine.global_time
